@@ -160,7 +160,7 @@ def run(ctx):
         for sig, msg, extra in check_instance(rp0)[4]:
             ctx.violation(f"{sig}/{kind0}/corner", f"{kind0}: {msg}",
                           dict(fh.describe({"kind": kind0, "desc": desc0, "rp": rp0}), **extra), True)
-    for case in fh.gen_objects(rng, count, max_n, stats=stats, mf_prob=0.6):
+    for case in fh.gen_objects(rng, count, max_n, stats=stats, mf_prob=0.6, after_query_prob=0.5):
         rp, kind, desc = case["rp"], case["kind"], case["desc"]
         d, S, out, info, problems = check_instance(rp)
         for sig, msg, extra in problems:
